@@ -57,7 +57,11 @@ func docs() []pdfw.Doc {
 		{NoContents: true},
 		{Lines: []pdfw.Line{ln(pdfw.Type1WinAnsi, 700, "after the gap"), ln(pdfw.Type1WinAnsi, 670, "closing line")}},
 	}}
-	return []pdfw.Doc{tiny, multi, cid, long, empty}
+	diffs := pdfw.Doc{Name: "diffs", Pages: []pdfw.Page{{Lines: []pdfw.Line{
+		ln(pdfw.Type1Differences, 700, "price € 5 • item Ω end"),
+		ln(pdfw.Type1WinAnsi, 670, "AB plain Aa"),
+	}}, {Lines: []pdfw.Line{ln(pdfw.Type1Differences, 700, "second • page €")}}}}
+	return []pdfw.Doc{tiny, multi, cid, long, empty, diffs}
 }
 
 var digits = regexp.MustCompile(`[0-9]+`)
@@ -71,7 +75,7 @@ func normErr(err error) string {
 }
 
 func run(e *harness.Env) {
-	e.Rule = "5 logical documents x layout vectors over 11 dimensions (xref/objstm, filter chain, /Length placement, content split count x whitespace side x cut rotation, " +
+	e.Rule = "6 logical documents x layout vectors over 11 dimensions (xref/objstm, filter chain, /Length placement, content split count x whitespace side x cut rotation, " +
 		"page-tree depth x location of inheritable keys, revisions, numbering/file order, EOL, indirect Resources/Font/MediaBox/Contents-array objects); quick: all vectors with <=3 non-default choices, thorough: the full product; " +
 		"distinct = distinct descriptors, non-trivial = at least one non-default layout choice"
 	e.Assumptions = []string{"internal/gen/pdfw emits well-formed PDF (self-validated offsets/lengths; ISO 32000-1 7.5)", "x/text charmaps for WinAnsi/MacRoman byte encodings"}
